@@ -13,12 +13,13 @@ from .. import core, gen, wire
 LEVEL = 'exploration'
 RULE = ('each case = one endpoint (role x header_encoding x inbound validate/normalise x initiated or not) fed a '
         'generated peer byte stream (structural frames with hostile fields / arbitrary HPACK blocks / CONTINUATION '
-        'chains, optionally byte-mutated) in random chunks, feeding continues after errors; non-trivial = at least '
+        'chains, optionally byte-mutated) in random chunks, interleaved with local calls most of which are refused (invalid '
+        'header lists on new ids, data, pushes, window/priority/settings calls with bad arguments), feeding continues after errors; non-trivial = at least '
         'one receive_data call returned events or raised; distinct = hash of (config, input bytes); plus a coverage-guided '
         'layer (sys.monitoring LINE events over h2 / hpack / hyperframe): per case a corpus of plausible streams is evolved by byte '
         'mutation, frame insertion and splicing, inputs that reach new library lines are kept')
 MINIMA = {'receive_calls': 1000, 'raised_protocol_error': 50, 'returned_events': 200, 'greybox_executions': 10000,
-          'greybox_inputs_kept_for_new_coverage': 500}
+          'greybox_inputs_kept_for_new_coverage': 500, 'refused_local_calls_between_deliveries': 20000}
 ASSUMPTIONS = ['inputs are those reachable by the structural generator plus byte mutation; not all byte strings']
 
 
@@ -223,6 +224,8 @@ def run_case(idx, rng, tier, rep):
             nsid += 2
         elif initiated and rng.random() < 0.05 and pg.open:
             t.call('reset_stream', rng.choice(list(pg.open.keys())))
+        elif initiated and rng.random() < 0.12:
+            nsid = local_noise(t, rng, rep, pg, client, nsid)
         msg = pg.step()
         if mutate and rng.random() < 0.3:
             msg = gen.mutate_bytes(rng, msg)
@@ -264,6 +267,43 @@ def run_case(idx, rng, tier, rep):
     if idx % 997 == 0:
         rep.sample({'role': 'client' if client else 'server', 'cfg': cfg, 'initiated': initiated,
                     'chunks': [c.hex()[:160] for c in inputs[:6]], 'n_chunks': len(inputs)})
+
+
+def local_noise(t, rng, rep, pg, client, nsid):
+    """Local calls, most of them refused, between deliveries: "any connection state" includes the states such calls leave
+    behind.  Their outcome is not judged here; a hostile peer then talks on the ids they touched."""
+    known = list(pg.open.keys()) or [1]
+    sid = rng.choice(known + [nsid, nsid + 2, 0, 2, 4])
+    a = rng.randrange(9)
+    if a == 0:
+        kind = 'request' if client else rng.choice(['response', 'informational', 'trailers'])
+        r = t.call('send_headers', nsid if client and rng.random() < 0.7 else sid, gen.hostile_headers(rng, kind),
+                   end_stream=rng.random() < 0.5)
+        if client:
+            if rng.random() < 0.6:
+                pg.note_e_stream(nsid)        # the peer answers on that id whether or not the request went out
+            nsid += 2
+    elif a == 1:
+        r = t.call('send_data', sid, b'x' * rng.choice([0, 1, 70000]), end_stream=rng.random() < 0.3)
+    elif a == 2:
+        r = t.call('end_stream', sid)
+    elif a == 3:
+        r = t.call('push_stream', sid, rng.choice([2, 4, 6, 8, 3]), gen.hostile_headers(rng, 'request') if rng.random() < 0.5
+                   else gen.valid_headers(rng, 'request'))
+    elif a == 4:
+        r = t.call('increment_flow_control_window', rng.choice([0, 1, 2 ** 31 - 1, 2 ** 31]), rng.choice([None, sid]))
+    elif a == 5:
+        r = t.call('prioritize', sid, weight=rng.choice([0, 16, 256, 257]), depends_on=rng.choice([0, sid, 1]))
+    elif a == 6:
+        r = t.call('update_settings', {rng.choice([1, 2, 3, 4, 5, 6, 8]): rng.choice([0, 1, 100, 16384, 2 ** 31])})
+    elif a == 7:
+        r = t.call('acknowledge_received_data', rng.choice([0, 1, 100000]), sid)
+    else:
+        r = t.call('reset_stream', sid, rng.choice([0, 8, 2 ** 32]))
+    rep.count('local_calls_between_deliveries')
+    if r.exc is not None:
+        rep.count('refused_local_calls_between_deliveries')
+    return nsid
 
 
 def witness(client, cfg, initiated, inputs):
